@@ -109,3 +109,5 @@ def run(R):
                      note="fixed/integer == trunc(a/n) for every non-zero n (mathematical value)", portfolio=PF)
             R.verify("%s%s/zero-nan" % (u, k), [a, n], [c], z3.And(finite(a), n == 0), isnan_raw(c.out), portfolio=PF)
             R.verify_noub("%s%s/no-trap-no-UB" % (u, k), [a, n], [c], finite(a), portfolio=PF)
+    # the optimised code computes what the source computes (every wrapper, clang -O2)
+    R.tv_guard(h, units())
